@@ -297,6 +297,26 @@ void gen_detect(Plan& p, Rng& r)
         p.steps.push_back(mk("x_version", r, 4, 1));
 }
 
+void gen_drift(Plan& p, Rng& r, uint64_t index)
+{
+    // C17: one structural edit by the second party while closed, then verify()
+    p.cfg.on_disk = true;
+    p.cfg.checks = CK_RELOAD;
+    p.cfg.table_api = false;
+    p.cfg.schema = (int)(index % 18);  // stratified: every schema gets its share
+    if (r.chance(1, 2))
+        p.steps.push_back(mk("create_track", r, 0, 1));
+    if (r.chance(1, 2))
+        p.steps.push_back(mk("create_root", r, 0, 1));
+    int n = 6 + (int)r.below(10);
+    for (int i = 0; i < n; ++i)
+    {
+        Step s = mk("x_drift", r, 4, 1);
+        s.a[1] = (int64_t)((index / 18 + (uint64_t)i) % 18) + 18 * (int64_t)r.below(50);  // edit kinds in rotation
+        p.steps.push_back(s);
+    }
+}
+
 void gen_hostile(Plan& p, Rng& r)
 {
     // C15: ordinary operations mixed with hostile ones; values come from the
@@ -436,6 +456,8 @@ Plan generate_plan(const std::string& profile_in, uint64_t seed, uint64_t index)
         gen_corrupt(p, r);
     else if (profile == "detect")
         gen_detect(p, r);
+    else if (profile == "drift")
+        gen_drift(p, r, index);
     else if (profile == "hostile")
         gen_hostile(p, r);
     else
